@@ -280,6 +280,9 @@ oldbuf:
 err1:
 	free(WB);
 err0:
+	/* We failed to reserve any space. */
+	W->reserved = 0;
+
 	/* Failure! */
 	return (NULL);
 }
